@@ -36,6 +36,9 @@ def _sig(ops, io, mo, k):
 CFG = PropCfg(
     "C11", "HopModel.Props.C11",
     [SuiteCfg("C11", signature=_sig, timeout=3000, parts_thorough=4,
+              # re-running a case in which the muxer wedged or died waits for watchdogs every time
+              should_shrink=lambda f: not any(o.split(" ")[0] in ("blocked", "wedged", "stuck", "panic", "dead", "died", "hung")
+                                              for o in f["impl"]),
               nontrivial=lambda ops, outs: any(o.startswith("raw") for o in ops),
               classify=lambda op, out: _kind(op) + "->" + out.split(" ")[0][:8])],
     rule="suite C11: a case is one real tubes.Muxer on a scripted MsgConn, run in a child process (a panic in a "
